@@ -1,4 +1,5 @@
 // Engine E5: contexts (C13) and value life cycle (C14) on injected grammars.
+#include <map>
 #include "common/grammar_runner.hpp"
 #include "common/templates_values.hpp"
 
@@ -261,174 +262,160 @@ struct P_C14
 
 
 // ---------------------------------------------------------------------------------------------------
-// C14h: the library's own helper functors (emplace_back / push_back in both position orders, _eN) in a parser written in the DSL, over
-// instrumented element values (copyable here, move-only in the -DVALUES_MOVE_ONLY build): left- and right-recursive lists.
-namespace hl
+// C13t: a statement language written in the DSL whose statement nonterminals carry NO value (nterm<no_type>) and whose only effect is on
+// the caller's context: every rule functor ('>>=' and '>=') of such nonterminals must still run, in reduction order, on the caller's object.
+namespace sc
 {
 using namespace ctpg; using namespace ctpg::ftors;
-#ifdef VALUES_MOVE_ONLY
-using NV = tv::TrackedT<false>;
-#else
-using NV = tv::TrackedT<true>;
-#endif
-using List = std::vector<NV>;
-struct Res { List l, r; };
-struct ItemF { NV operator()(char) const { return NV(tv::Fresh{}, false, 0); } };
-struct One { List operator()(NV&& v) const { List l; l.reserve(2); l.emplace_back(std::move(v)); return l; } };
-struct Join { Res operator()(List&& a, char, List&& b) const { return Res{std::move(a), std::move(b)}; } };
-inline const auto& parser_h()
+struct SCtx
+{
+    std::vector<std::string> log; std::map<std::string, int> vars; std::vector<int> printed; std::vector<const void*> addrs;
+    SCtx() = default; SCtx(const SCtx&) = delete; SCtx& operator=(const SCtx&) = delete;
+    void at(const void* self) { addrs.push_back(self); }
+};
+inline thread_local long g_plain_calls = 0;      // calls of '>=' functors attached to valueless nonterminals
+constexpr char s_ident[] = "[a-z]+"; constexpr char s_number[] = "[0-9]+";
+struct s_limits { static const size_t state_count_cap = 120; static const size_t max_sit_count_per_state_cap = 200; };
+inline const auto& parser_s()
 {
     static const auto* p = []
     {
-        constexpr nterm<NV> item("item"); constexpr nterm<List> ll("ll"), rl("rl"); constexpr nterm<Res> top("top");
+        constexpr nterm<no_type> prog("prog"), stmt("stmt"); constexpr nterm<int> expr("expr");
+        constexpr regex_term<s_ident> ident("ident"); constexpr regex_term<s_number> number("number");
+        constexpr char_term plus('+', 1, associativity::ltor);
         return new parser(
-            top, terms('x', ',', '+', ';', '(', ')'), nterms(top, ll, rl, item),
+            prog, terms("let", "print", ident, number, '=', ';', plus), nterms(prog, stmt, expr),
             rules(
-                top(ll, ';', rl) >= Join{},
-                ll(item) >= One{},
-                ll(ll, ',', item) >= emplace_back<1, 3>{},          // container before the element
-                rl(item) >= One{},
-                rl(item, ',', rl) >= emplace_back<3, 1>{},          // element before the container
-#ifndef VALUES_MOVE_ONLY
-                ll(ll, '+', item) >= push_back<1, 3>{},             // push_back copies its element by design: copyable build only
-                rl(item, '+', rl) >= push_back<3, 1>{},
-#endif
-                ll(ll, ',', error) >= _e1,
-                item('x') >= ItemF{},
-                item('(', item, ')') >= _e2
-            ));
+                prog() >>= [](SCtx& c) { c.at(&c); c.log.push_back("start"); return no_type{}; },
+                prog(prog, stmt) >= [](no_type, no_type) { ++g_plain_calls; return no_type{}; },
+                stmt("let", ident, '=', expr, ';') >>= [](SCtx& c, skip, std::string_view id, skip, int v, skip) { c.at(&c); c.vars[std::string(id)] = v; c.log.push_back("let:" + std::string(id) + "=" + std::to_string(v)); return no_type{}; },
+                stmt("print", expr, ';') >>= [](SCtx& c, skip, int v, skip) { c.at(&c); c.printed.push_back(v); c.log.push_back("print:" + std::to_string(v)); return no_type{}; },
+                stmt(';') >= [](skip) { ++g_plain_calls; return no_type{}; },
+                expr(expr, '+', expr) >= [](int a, skip, int b) { return (a + b) % 1000000; },
+                expr(number) >= [](std::string_view sv) { int v = 0; for (char ch : sv) v = (v * 10 + (ch - '0')) % 1000000; return v; },
+                expr(ident) >>= [](SCtx& c, std::string_view id) { c.at(&c); c.log.push_back("get:" + std::string(id)); auto it = c.vars.find(std::string(id)); return it == c.vars.end() ? 0 : it->second; }
+            ),
+            use_generated_lexer{}, s_limits{});
     }();
     return *p;
 }
-// independent evaluation of the text: top = L ';' R, lists of items separated by ',' or '+', item = x | '(' item ')'
-struct Want { bool ok = false; size_t nl = 0, nr = 0, pushes = 0; };
-inline Want eval_h(const std::string& text)
+// independent evaluation of the text
+struct Want { bool ok = false; std::vector<std::string> log; std::map<std::string, int> vars; std::vector<int> printed; long plain = 0; size_t contextual = 0; };
+inline Want eval_s(const std::string& text)
 {
-    Want w; std::string t; for (char c : text) if (!(c == ' ' || c == '\t' || c == '\n' || c == '\r' || c == '\v' || c == '\f')) t += c;
+    Want w; w.log.push_back("start"); w.contextual = 1;
+    struct Tok { int k; std::string s; };      // 0 let 1 print 2 ident 3 number 4 '=' 5 ';' 6 '+'
+    std::vector<Tok> toks;
+    for (size_t i = 0; i < text.size();)
+    {
+        unsigned char c = (unsigned char)text[i];
+        if (c == ' ' || c == '\t' || c == '\n' || c == '\r' || c == '\v' || c == '\f') { ++i; continue; }
+        if (c >= 'a' && c <= 'z') { size_t j = i; while (j < text.size() && text[j] >= 'a' && text[j] <= 'z') ++j; std::string s = text.substr(i, j - i); toks.push_back(Tok{s == "let" ? 0 : s == "print" ? 1 : 2, s}); i = j; continue; }
+        if (c >= '0' && c <= '9') { size_t j = i; while (j < text.size() && text[j] >= '0' && text[j] <= '9') ++j; toks.push_back(Tok{3, text.substr(i, j - i)}); i = j; continue; }
+        if (c == '=') { toks.push_back(Tok{4, "="}); ++i; continue; }
+        if (c == ';') { toks.push_back(Tok{5, ";"}); ++i; continue; }
+        if (c == '+') { toks.push_back(Tok{6, "+"}); ++i; continue; }
+        return w;
+    }
     size_t p = 0;
-    auto item = [&]() { size_t depth = 0; while (p < t.size() && t[p] == '(') { ++depth; ++p; } if (p >= t.size() || t[p] != 'x') return false; ++p; while (depth) { if (p >= t.size() || t[p] != ')') return false; ++p; --depth; } return true; };
-    auto list = [&](size_t& n) { if (!item()) return false; n = 1; while (p < t.size() && (t[p] == ',' || t[p] == '+')) {
-#ifdef VALUES_MOVE_ONLY
-            if (t[p] == '+') return false;
-#endif
-            if (t[p] == '+') ++w.pushes; ++p; if (!item()) return false; ++n; } return true; };
-    if (!list(w.nl)) return w;
-    if (p >= t.size() || t[p] != ';') return w;
-    ++p;
-    if (!list(w.nr)) return w;
-    w.ok = p == t.size();
+    auto expr = [&](int& v) -> bool
+    {
+        auto atom = [&](int& a) -> bool
+        {
+            if (p < toks.size() && toks[p].k == 3) { a = 0; for (char ch : toks[p].s) a = (a * 10 + (ch - '0')) % 1000000; ++p; return true; }
+            if (p < toks.size() && toks[p].k == 2) { w.log.push_back("get:" + toks[p].s); ++w.contextual; auto it = w.vars.find(toks[p].s); a = it == w.vars.end() ? 0 : it->second; ++p; return true; }
+            return false;
+        };
+        if (!atom(v)) return false;
+        while (p < toks.size() && toks[p].k == 6) { ++p; int b; if (!atom(b)) return false; v = (v + b) % 1000000; }
+        return true;
+    };
+    while (p < toks.size())
+    {
+        if (toks[p].k == 5) { ++p; w.plain += 2; continue; }       // stmt(';') and prog(prog, stmt)
+        if (toks[p].k == 0)
+        {
+            ++p; if (p >= toks.size() || toks[p].k != 2) return w; std::string id = toks[p].s; ++p;
+            if (p >= toks.size() || toks[p].k != 4) return w; ++p;
+            int v; if (!expr(v)) return w; if (p >= toks.size() || toks[p].k != 5) return w; ++p;
+            w.vars[id] = v; w.log.push_back("let:" + id + "=" + std::to_string(v)); ++w.contextual; w.plain += 1; continue;
+        }
+        if (toks[p].k == 1)
+        {
+            ++p; int v; if (!expr(v)) return w; if (p >= toks.size() || toks[p].k != 5) return w; ++p;
+            w.printed.push_back(v); w.log.push_back("print:" + std::to_string(v)); ++w.contextual; w.plain += 1; continue;
+        }
+        return w;
+    }
+    w.ok = true;
     return w;
 }
 }
 
-struct P_C14h
+struct P_C13t
 {
     struct Case { std::vector<std::string> inputs; };
-#ifdef VALUES_MOVE_ONLY
-    static const char* id() { return "C14hm"; }
-#else
-    static const char* id() { return "C14h"; }
-#endif
+    static const char* id() { return "C13t"; }
     static Case gen(Choice& ch)
     {
         Case c; eng::Rng rng = ch.fork(); int n = 3 + int(ch.below(8));
+        static const char* ids[] = {"a", "b", "x", "total", "le", "lett", "printer", "pr"};
         for (int i = 0; i < n; ++i)
         {
-            std::string s; const bool plus_here = rng.chance(1, 12); (void)plus_here;
-            auto list = [&](size_t k)
+            std::string s; size_t k = rng.chance(1, 25) ? 400 + rng.below(800) : rng.below(9);
+            auto sp = [&]() { return std::string(rng.chance(1, 3) ? (rng.chance(1, 3) ? "\n" : " ") : ""); };
+            auto expr = [&]() { std::string e; int m = 1 + int(rng.below(4)); for (int j = 0; j < m; ++j) { if (j) e += sp() + "+" + sp(); if (rng.chance(1, 2)) e += std::to_string(rng.below(1000)); else e += ids[rng.below(8)]; } return e; };
+            for (size_t j = 0; j < k; ++j)
             {
-                for (size_t j = 0; j < k; ++j)
+                switch (rng.below(5))
                 {
-                    if (j)
-                    {
-#ifdef VALUES_MOVE_ONLY
-                        s += (plus_here && rng.chance(1, 6)) ? "+" : ",";      // '+' is not part of the move-only build's language
-#else
-                        s += rng.chance(1, 3) ? "+" : ",";
-#endif
-                        if (rng.chance(1, 5)) s += " ";
-                    }
-                    int d = rng.chance(1, 3) ? 1 + int(rng.below(3)) : 0;
-                    s += std::string(size_t(d), '('); s += "x"; s += std::string(size_t(d), ')');
+                case 0: s += ";"; break;
+                case 1: case 2: s += "let " + std::string(ids[rng.below(8)]) + sp() + "=" + sp() + expr() + sp() + ";"; break;
+                default: s += "print " + expr() + sp() + ";"; break;
                 }
-            };
-            auto len = [&]() -> size_t { uint32_t k = rng.below(40); return k == 0 ? 1030 + rng.below(1100) : k < 4 ? 20 + rng.below(200) : 1 + rng.below(9); };
-            list(len()); s += rng.chance(1, 4) ? " ; " : ";"; list(len());
-            if (rng.chance(1, 3) && !s.empty())
-            {
-                size_t pos = rng.below(uint32_t(s.size()));
-                switch (rng.below(4)) { case 0: s.erase(pos, 1); break; case 1: s.insert(pos, 1, ",;x()+z"[rng.below(7)]); break; case 2: s[pos] = ",;x()+"[rng.below(6)]; break; default: s.resize(pos); break; }
+                s += sp();
             }
+            if (rng.chance(1, 5) && !s.empty()) { size_t pos = rng.below(uint32_t(s.size())); switch (rng.below(3)) { case 0: s.erase(pos, 1); break; case 1: s.insert(pos, 1, ";=+ a7#"[rng.below(7)]); break; default: s[pos] = ";=+ a7"[rng.below(6)]; break; } }
             c.inputs.push_back(s);
         }
         return c;
     }
-    static vj::Value to_json(const Case& c) { vj::Value o = vj::Value::object(); o.set("kind", "helper-list-parser"); vj::Value a = vj::Value::array(); for (auto& s : c.inputs) a.push(s); o.set("inputs", a); return o; }
+    static vj::Value to_json(const Case& c) { vj::Value o = vj::Value::object(); o.set("kind", "fixed-parser-S(valueless statement nonterminals, contextual functors)"); vj::Value a = vj::Value::array(); for (auto& s : c.inputs) a.push(s); o.set("inputs", a); return o; }
     static Case from_json(const vj::Value& v) { Case c; for (size_t i = 0; i < v.at("inputs").size(); ++i) c.inputs.push_back(v.at("inputs").at(i).as_str()); return c; }
     static std::vector<Case> shrinks(const Case& c, const vj::Value& d)
     {
         std::vector<Case> out;
         if (d.has("input_index") && c.inputs.size() > 1) { size_t k = size_t(d.at("input_index").as_int()); if (k < c.inputs.size()) { Case x; x.inputs = {c.inputs[k]}; out.push_back(x); } }
-        if (c.inputs.size() == 1)
-        {
-            const std::string& s = c.inputs[0];
-            for (size_t chunk = s.size() / 2; chunk >= 1; chunk /= 2) { for (size_t p = 0; p + chunk <= s.size(); p += chunk) { Case x = c; x.inputs[0].erase(p, chunk); out.push_back(x); } if (chunk == 1) break; }
-        }
+        if (c.inputs.size() == 1) { const std::string& s = c.inputs[0]; for (size_t chunk = std::max<size_t>(s.size() / 2, 1); ; chunk /= 2) { for (size_t p = 0; p + chunk <= s.size(); p += chunk) { Case x = c; x.inputs[0].erase(p, chunk); out.push_back(x); } if (chunk <= 1) break; } }
         return out;
     }
     static Verdict eval(const Case& c, Stats& st)
     {
-        size_t interesting = 0; bool any_recovery = false, any_deep = false, any_push = false;
+        size_t interesting = 0;
         for (size_t k = 0; k < c.inputs.size(); ++k)
         {
             const std::string& text = c.inputs[k];
-            hl::Want w = hl::eval_h(text);
-            tv::reg().reset();
-            vj::Value d = vj::Value::object(); d.set("input_index", (unsigned long long)k); d.set("input", text.size() > 400 ? text.substr(0, 400) + "..." : text); d.set("input_bytes", (unsigned long long)text.size());
-            bool threw = false; std::string exc; bool has = false; std::ostringstream os;
+            sc::Want w = sc::eval_s(text);
+            sc::SCtx ctx; sc::g_plain_calls = 0; ctpg::utils::no_stream ns; bool threw = false, has = false; std::string exc;
+            try { auto r = sc::parser_s().context_parse(ctx, ctpg::parse_options{}, ctpg::buffers::string_view_buffer(std::string_view(text)), ns); has = r.has_value(); }
+            catch (const std::exception& e) { threw = true; exc = e.what(); }
+            st.sub_evaluations += st.counting ? 1 : 0;
+            vj::Value d = vj::Value::object(); d.set("input_index", (unsigned long long)k); d.set("input", text.size() > 500 ? text.substr(0, 500) + "..." : text);
+            if (threw) { d.set("exception", exc); return Verdict::fail("context_parse threw", d); }
+            if (has != w.ok) { d.set("expected_accept", w.ok); return Verdict::fail("acceptance differs from the grammar", d); }
+            for (const void* a : ctx.addrs) if (a != &ctx) return Verdict::fail("a contextual functor did not receive the caller's object (different address)", d);
+            if (!w.ok) continue;
+            if (ctx.log != w.log)
             {
-                std::optional<hl::Res> got;
-                try { got = hl::parser_h().parse(ctpg::parse_options{}, ctpg::buffers::string_buffer(std::string(text)), os); } catch (const std::exception& e) { threw = true; exc = e.what(); }
-                st.sub_evaluations += st.counting ? 1 : 0;
-                if (threw) { d.set("exception", exc); return Verdict::fail("parse threw", d); }
-                has = got.has_value();
-                bool recovered = os.str().find("Syntax error") != std::string::npos && has;
-                if (recovered) any_recovery = true;
-                if (w.ok && !has) { d.set("error_stream", os.str()); return Verdict::fail("a list in the language was rejected", d); }
-                if (!w.ok && has && !recovered) return Verdict::fail("a text outside the language was accepted without any error report", d);
-                if (w.ok)
-                {
-                    const hl::Res& r = got.value();
-                    bool good = r.l.size() == w.nl && r.r.size() == w.nr;
-                    // items are created left to right (value ids 1, 2, ...): the left-recursive list keeps that order, the right-recursive one is built from its tail
-                    for (size_t i = 0; good && i < r.l.size(); ++i) if (r.l[i].vid != long(i + 1)) good = false;
-                    for (size_t i = 0; good && i < r.r.size(); ++i) if (r.r[i].vid != long(w.nl + w.nr - i)) good = false;
-                    if (!good)
-                    {
-                        vj::Value a = vj::Value::array(); for (auto& x : r.l) a.push((long long)x.vid); vj::Value b = vj::Value::array(); for (auto& x : r.r) b.push((long long)x.vid);
-                        if (text.size() < 400) { d.set("left_ids", a); d.set("right_ids", b); } d.set("expected_left", (unsigned long long)w.nl); d.set("expected_right", (unsigned long long)w.nr);
-                        return Verdict::fail("emplace_back / push_back / _eN did not append the element values in derivation order", d);
-                    }
-                    for (auto* lst : {&r.l, &r.r}) for (auto& x : *lst) if (x.moved_from) return Verdict::fail("a list element is a moved-from value", d);
-                    d.set("element_copies", (long long)tv::reg().nterm_copies); d.set("push_back_appends", (unsigned long long)w.pushes);
-                    if (size_t(tv::reg().nterm_copies) > w.pushes) return Verdict::fail("element values were copied on their way into the list (emplace_back must move; push_back copies at most once)", d);
-                    if (w.nl + w.nr >= 4) ++interesting;
-                    if (w.nl + w.nr >= 1024) any_deep = true;
-                    if (w.pushes) any_push = true;
-                }
-                else if (tv::reg().constructions >= 3) ++interesting;
+                vj::Value a = vj::Value::array(); for (size_t i = 0; i < w.log.size() && i < 30; ++i) a.push(w.log[i]); vj::Value b = vj::Value::array(); for (size_t i = 0; i < ctx.log.size() && i < 30; ++i) b.push(ctx.log[i]);
+                d.set("expected_events", a); d.set("observed_events", b);
+                return Verdict::fail("functors attached with '>>=' (also those of nonterminals without a value) were not all called in reduction order with the caller's context", d);
             }
-            // the result (if any) is gone: every value ever created has been destroyed exactly once
-            const tv::Registry& rg = tv::reg();
-            d.set("constructions", (long long)rg.constructions); d.set("destructions", (long long)rg.destructions); d.set("still_alive", (unsigned long long)rg.live.size());
-            if (rg.double_destroy || rg.destroy_unknown) return Verdict::fail("a value was destroyed twice (or an object that was never constructed was destroyed)", d);
-            if (rg.constructions != rg.destructions || !rg.live.empty()) return Verdict::fail("values created during the parse were not destroyed exactly once", d);
+            if (ctx.vars != w.vars || ctx.printed != w.printed) return Verdict::fail("mutations made through the context are not what the caller sees afterwards", d);
+            if (sc::g_plain_calls != w.plain) { d.set("expected_calls", (long long)w.plain); d.set("observed_calls", (long long)sc::g_plain_calls); return Verdict::fail("'>=' functors of nonterminals without a value were not called once per reduction", d); }
+            if (w.contextual >= 3) ++interesting;
         }
-        if (interesting && st.counting && st.nontriv(eng::hstr(to_json(c).dump())))
-        {
-            st.label("nontrivial"); st.label("helper-list-parser"); if (any_recovery) st.label("recovered-parse"); if (any_deep) st.label("list>=1024-elements"); if (any_push) st.label("push_back-used");
-            if (st.want_sample()) { vj::Value s = vj::Value::object(); vj::Value a = vj::Value::array(); for (auto& x : c.inputs) if (x.size() < 120) a.push(x); s.set("inputs", a); st.sample(s); }
-        }
+        if (interesting && st.counting && st.nontriv(eng::hstr(to_json(c).dump()))) { st.label("nontrivial"); st.label("fixed-parser:S(valueless nonterminals)"); if (st.want_sample()) { vj::Value s = vj::Value::object(); vj::Value a = vj::Value::array(); for (auto& x : c.inputs) if (x.size() < 100) a.push(x); s.set("inputs", a); st.sample(s); } }
         return Verdict::pass();
     }
 };
@@ -441,7 +428,7 @@ int main(int argc, char** argv)
     {
         if (a.prop == "C13" || a.prop == "C13m") rc = eng::run_property<P_C13>(a);
         else if (a.prop == "C14" || a.prop == "C14m") rc = eng::run_property<P_C14>(a);
-        else if (a.prop == "C14h" || a.prop == "C14hm") rc = eng::run_property<P_C14h>(a);
+        else if (a.prop == "C13t") rc = eng::run_property<P_C13t>(a);
         else { fprintf(stderr, "unknown --prop %s\n", a.prop.c_str()); rc = 2; }
     });
     return rc;
